@@ -21,8 +21,8 @@ META = {
     "level": "fault_enumeration",
     "technique": "fault enumeration (loss kind x timing) with delay-bounded schedule exploration on two live transports under a cooperative scheduler; deadlock/livelock detection",
     "text": "Every blocking API (recv, recv_stderr, send/sendall on a zero window, exec_command, recv_exit_status, "
-            "open_session, auth_password, accept(None), accept(5), global_request(wait), renegotiate_keys, start_client) x "
-            "loss in {peer close, stream EOF, EOF mid-packet, local close, packet with a bad MAC} x timing {blocked before, "
+            "open_session, auth_password (Transport and ServiceRequestingTransport), accept(None), accept(5), global_request(wait), renegotiate_keys, start_client) x "
+            "loss in {peer close, stream EOF, EOF mid-packet, local close, packet with a bad MAC, socket error with (errno, text), socket error with a single argument} x timing {blocked before, "
             "racing within delay bound 1/2, issued after} x channel timeout {None, 3.0}; plus a transport over a "
             "ProxyCommand whose process exits; plus [loss at every point inside the call] every API x loss {local close, "
             "stream EOF} (thorough: all five) with the loss and the system's whole reaction landing while the caller "
@@ -39,8 +39,8 @@ META = {
 
 APIS = ["recv", "recv_stderr", "send_zero_window", "sendall_zero_window", "exec_command", "recv_exit_status",
         "open_session", "auth_password", "accept_none", "accept_5", "global_request", "renegotiate_keys",
-        "start_client"]
-LOSSES = ["peer_close", "sock_eof", "eof_mid_packet", "local_close", "bad_mac"]
+        "start_client", "auth_password_srt"]
+LOSSES = ["peer_close", "sock_eof", "eof_mid_packet", "local_close", "bad_mac", "sock_error", "sock_error_one_arg"]
 GRACE = 3.0
 
 
@@ -68,7 +68,7 @@ def make_body(scn):
     busy = scn[5] if len(scn) > 5 else False
 
     def body(s):
-        handshake_only = api in ("auth_password", "start_client")
+        handshake_only = api in ("auth_password", "start_client", "auth_password_srt")
         p = F.Pair()
         if api == "start_client":
             # the server never answers: the client blocks in the middle of the handshake
@@ -79,6 +79,12 @@ def make_body(scn):
             p.start()
         else:
             p.up()
+        if api == "auth_password_srt":
+            # the other client class of the library: ServiceRequestingTransport (used by AuthStrategy / SSHClient
+            # with auth_strategy=...) requests the ssh-userauth service lazily and waits for the answer itself
+            from paramiko.transport import ServiceRequestingTransport
+            p.tc.__class__ = ServiceRequestingTransport
+            p.tc._service_userauth_accepted = False
         chan = schan = None
         if api in ("recv", "recv_stderr", "send_zero_window", "sendall_zero_window", "exec_command",
                    "recv_exit_status"):
@@ -96,7 +102,8 @@ def make_body(scn):
         vt, vsock, peer_t = (p.ts, p.ss, p.tc) if victim_of(api) == "s" else (p.tc, p.sc, p.ts)
         in_pipe = p.c2s if victim_of(api) == "s" else p.s2c      # pipe that carries data to the victim
         # replies are withheld by gating the wire towards the victim
-        if api in ("exec_command", "open_session", "auth_password", "global_request", "renegotiate_keys"):
+        if api in ("exec_command", "open_session", "auth_password", "global_request", "renegotiate_keys",
+                   "auth_password_srt"):
             in_pipe.gated = True
         out = {}
         bad_pkt = None
@@ -132,7 +139,7 @@ def make_body(scn):
                     out["ret"] = chan.recv_exit_status()
                 elif api == "open_session":
                     out["ret"] = repr(p.tc.open_session())
-                elif api == "auth_password":
+                elif api in ("auth_password", "auth_password_srt"):
                     out["ret"] = p.tc.auth_password("alice", "pw")
                 elif api == "accept_none":
                     out["ret"] = repr(p.ts.accept(None))
@@ -165,6 +172,13 @@ def make_body(scn):
                 vsock.eof = True
             elif loss == "local_close":
                 vt.close()
+            elif loss == "sock_error":
+                import errno
+                vsock.fail_recv = OSError(errno.ECONNRESET, "Connection reset by peer")
+            elif loss == "sock_error_one_arg":
+                # what a socket-like object that is not an OS socket raises - e.g. paramiko's own Channel
+                # (ProxyJump: a Transport running over a channel): socket.error("Socket is closed")
+                vsock.fail_recv = OSError("Socket is closed")
             elif loss == "bad_mac":
                 vsock.rbuf += bad_pkt      # one atomic step: the corrupted packet arrives
             out["t_loss"] = S.now()
@@ -326,7 +340,7 @@ def scenarios(tier):
                     out.append((api, loss, timing, None, 2))
         # the victim's transport thread is busy in an application callback: only a local close() can end the
         # connection meanwhile (every other loss is noticed by that thread)
-        if api not in ("start_client", "auth_password"):
+        if api not in ("start_client", "auth_password", "auth_password_srt"):
             for timing in (("before",) if tier == "quick" else ("before", "racing", "after")):
                 out.append((api, "local_close", timing, None, 1, True))
     return out
